@@ -395,6 +395,8 @@ class BaseInput:
         if transformers:
             all_columns = self._dataframe
             if need_categorical:
+                # Convert a copy: the table itself keeps its text columns (a category column refuses new cell values).
+                all_columns = all_columns.copy()
                 all_columns[need_categorical] = all_columns[need_categorical].astype('category')
 
             all_columns = all_columns.transform(transformers)
